@@ -46,6 +46,7 @@ def parseOp (t : String) : Option SOp :=
   | ["iN", n, d] => do some (.iNums (← n.toNat?) (← parseInt d))
   | ["oF", s] => some (.onFail (s != "0"))
   | ["ret", v] => some (.ret (v != "0"))
+  | ["bI", name] => (Builtin.ofName name).map SOp.builtin
   | _ => none
 
 def parseTable (t : String) : Option (List Cmd) :=
@@ -95,6 +96,8 @@ def evStr (pFloatDbl : Bool) : Ev → String
   | .error c _ => s!"E{c}"
   | .input r => s!"R{b01 r}"
   | .parseMsg m => s!"P{hexOfBytes m}"
+  | .noError => "E0"
+  | .reset => "Z"
 
 /-- which float reader produced each pLit event is needed to pick 32/64 bits: recover it from the script -/
 def floatWidths (cmds : List Cmd) (evs : List Ev) : List Bool :=
@@ -122,6 +125,17 @@ def renderEvents (cmds : List Cmd) (evs : List Ev) : List String :=
 /-- run the chunks through the model; after each call append W/F/R like the harness does -/
 def runChunks (c : Ctx) (chunks : List String) : Option (Ctx × List String) :=
   chunks.foldlM (fun (acc : Ctx × List String) ch => do
+    if ch.startsWith "=G" then
+      -- the instrument itself changes a register between messages: SCPI_RegSet(reg, value)
+      match (ch.drop 2).toString.splitOn ":" with
+      | [r, v] =>
+        let r ← r.toNat?; let v ← parseHexNat v
+        if r < Regs.regCount then
+          let c1 := regStep acc.1 (.set r (BitVec.ofNat 16 v))
+          pure (c1, acc.2 ++ (c1.regs.srq.drop acc.1.regs.srq.length).map (fun q => "Q" ++ hex4 q.toNat))
+        else pure acc
+      | _ => none
+    else
     let data ← if ch == "-" then some [] else unhex ch
     let c0 := { acc.1 with events := [], out := { acc.1.out with written := [], flushes := 0 } }
     let c1 := Ctx.input c0 data
@@ -130,7 +144,8 @@ def runChunks (c : Ctx) (chunks : List String) : Option (Ctx × List String) :=
     let r := match c1.events.getLast? with | some (.input r) => r | _ => true
     let w := if c1.out.written.isEmpty then [] else ["W" ++ hexOfBytes c1.out.written]
     let f := if c1.out.flushes == 0 then [] else [s!"F{c1.out.flushes}"]
-    some (c1, acc.2 ++ evs ++ w ++ f ++ [s!"R{b01 r}"])) (c, [])
+    let q := (c1.regs.srq.drop c0.regs.srq.length).map (fun q => "Q" ++ hex4 q.toNat)
+    some (c1, acc.2 ++ evs ++ w ++ f ++ q ++ [s!"R{b01 r}"])) (c, [])
 
 def finishStr (c : Ctx) : List String :=
   let q := Fifo.EQ.abs c.eq
